@@ -1410,6 +1410,17 @@ class _FreeObj(Obj):
     def __getitem__(self, m):
         return _FreeValue('%s.%s' % (self._k, m), self._a, self._s)
 
+    def __bool__(self):
+        return bool(_FreeValue(self._k, self._a, self._s))
+
+    def __eq__(self, o):
+        return _FreeValue(self._k, self._a, self._s) == o
+
+    def __ne__(self, o):
+        return _FreeValue(self._k, self._a, self._s) != o
+
+    __hash__ = None
+
 
 def reset_decision_table(db, f, loop, free=None):
     """C11 r4: for (same?, CstType) -> set of callee names invoked by one iteration of ResetDependants' loop body.
@@ -1437,6 +1448,8 @@ def reset_decision_table(db, f, loop, free=None):
                     return None
                 if n['k'] == 'CXXOperatorCallExpr' and n.get('op') in ('*', '->') and n.get('args'):
                     return Obj(__facet__='ptr')
+                if free is not None and callee.split('::')[-1] == 'Contains' and callee.startswith(('ccl::semantic::RSCore::', 'ccl::semantic::Schema::')):
+                    return True         # the dependants come from the schema graph, whose items are the stored constituents (C07 r1 / C09 r7): not a free condition
                 if free is not None and callee.startswith(('ccl::semantic::RSCore::', 'ccl::semantic::RSModel::', 'ccl::semantic::Schema::')) and n['k'] == 'CXXMemberCallExpr':
                     return _FreeObj(callee.split('::')[-1] + '(dependant)', free[0], free[1])
                 return NOT_HANDLED
